@@ -68,7 +68,7 @@ class E2:
         self.fns = self.mir_of("passkey-authenticator")
         srcs = {}
         for rel in ("passkey-types/src/ctap2/get_assertion.rs", "passkey-types/src/ctap2/make_credential.rs",
-                    "passkey-types/src/passkey.rs"):
+                    "passkey-types/src/passkey.rs", "passkey-authenticator/src/lib.rs", "passkey-authenticator/src/authenticator/extensions.rs") + C.CLIENT_SOURCES:
             srcs[rel] = open(os.path.join(self.ws.ws, rel)).read()
         self.ctx = C.Ctx(srcs)
         self.ctx.fns = self.fns
@@ -278,7 +278,7 @@ def engine(pid, spec, tier, ws, out, log_dir, known):
     try:
         want = {pid}
         todo = spec.get("e2", [])
-        if any(t in todo for t in ("get_assertion", "make_credential", "stores", "forwarding", "u2f", "concurrency")):
+        if any(t in todo for t in ("get_assertion", "make_credential", "stores", "forwarding", "u2f", "concurrency", "secrecy", "client_register", "client_authenticate")):
             e2.dump_mir()
         npaths = 0
         if "get_assertion" in todo:
@@ -343,6 +343,52 @@ def engine(pid, spec, tier, ws, out, log_dir, known):
                 npaths += len(ps)
                 allp.append(ps)
             findings += C.check_u2f(allp[0], allp[1])
+        for kind in ("register", "authenticate"):
+            if "client_" + kind in todo:
+                cf = e2.mir_of("passkey-client")
+                f, n_ok, n_all, name = C.check_client(cf, e2.ctx, kind)
+                findings += f
+                npaths += n_all
+                e2.functions.append("passkey-client " + name)
+                f, n = C.check_origin_rendering(cf)
+                findings += [x for x in f if x.prop == pid]
+                npaths += n
+        if "secrecy" in todo:
+            nn = 0
+            ps = e2.feasible(e2.run_paths("ga", "authenticator::get_assertion", "get_assertion::{closure#0}"))
+            f, n = C.check_secrecy_get_assertion(ps, e2.ctx); findings += f; nn += n
+            ps = e2.feasible(e2.run_paths("mc", "authenticator::make_credential", "make_credential::{closure#0}"))
+            e2.ctx.cur = "mc"
+            f, n = C.check_secrecy_make_credential(ps, e2.ctx, "mc"); findings += f; nn += n
+            for m in ("register", "authenticate"):
+                cands = [n_ for n_ in e2.fns if n_.startswith("u2f::<impl") and n_.endswith("::%s::{closure#0}" % m)]
+                if len(cands) != 1:
+                    raise C.Shape("cannot identify U2fApi::%s in the MIR" % m)
+                ps = e2.feasible(Executor(e2.fns[cands[0]]).run())
+                e2.functions.append(cands[0])
+                if m == "register":
+                    f, n = C.check_secrecy_make_credential(ps, e2.ctx, "u2f")
+                else:
+                    f, n = C.check_secrecy_u2f_authenticate(ps, e2.ctx)
+                findings += f; nn += n
+            f, n = C.check_secrecy_key_pair(e2.fns, e2.ctx); findings += f; nn += n
+            e2.functions.append("CoseKeyPair::from_secret_key (MIR)")
+            f, n = C.check_secrecy_extensions(e2.fns, e2.ctx); findings += f; nn += n
+            e2.functions.append("calculate_hmac_secret, make_prf, get_prf, get_extensions, make_extensions and their closures (MIR)")
+            tf = e2.mir_of("passkey-types")
+            f, n = C.check_secrecy_debug(tf, e2.ctx); findings += f; nn += n
+            e2.functions.append("<Passkey as Debug>::fmt, <PublicKeyCredentialDescriptor as From<Passkey / &Passkey>>::from (MIR)")
+            npaths += nn
+            # the native scan runs on every pass as well: the scanner must find a planted secret, and nothing real
+            o = e2.run_scenario({"op": "leak_scan"}, "dev")
+            if o is None or o.get("crash") or not isinstance(o.get("result"), dict) or o["result"].get("scanner_selftest") is not True:
+                out.inconclusive.append("E2 C06: the native leak scan did not run (%s)" % (json.dumps(o)[:200] if o else e2.replay_build_err))
+            else:
+                out.extra["leak_scan"] = {"renderings": o["result"]["renderings"], "secrets": o["result"]["secrets"], "leaks": o["result"]["leaks"]}
+                for l in o["result"]["leaks"]:
+                    if not any(x.role.startswith("scan.") and l in x.text for x in findings):
+                        findings.append(C.Finding("C06", "scan." + re.sub(r"[^A-Za-z0-9_.=-]+", "-", l), "native scan: " + l, {"op": "leak_scan"},
+                                                  lambda o, l=l: l in o["result"]["leaks"], None))
         if "concurrency" in todo:
             ps = e2.feasible(e2.run_paths("ga", "authenticator::get_assertion", "get_assertion::{closure#0}"))
             npaths += len(ps)
